@@ -27,6 +27,7 @@ try:
 except ImportError:
   from collections import Iterable
 import itertools as it
+from fractions import Fraction
 from functools import reduce
 
 # Audiolazy internal imports
@@ -101,9 +102,20 @@ def _exec_eval(data, expr):
   ``expr`` evaluation afterwards.
 
   """
-  ns = {}
+  ns = {"Fraction": Fraction} # Name needed by the "_literal" strings
   exec(data, ns)
   return eval(expr, ns)
+
+
+def _literal(value):
+  """
+  String with a number to be used in the code seen by ``_exec_eval``. A
+  Fraction can't be written as "numerator/denominator": that would be a float.
+
+  """
+  if isinstance(value, Fraction):
+    return "Fraction({}, {})".format(value.numerator, value.denominator)
+  return "{}".format(value)
 
 
 @avoid_stream
@@ -208,7 +220,8 @@ class LinearFilter(LinearFilterProperties):
       elif coeff == -1:
         data_sum.append("-d{idx}".format(idx=delay))
       elif coeff != 0:
-        data_sum.append("{value} * d{idx}".format(idx=delay, value=coeff))
+        data_sum.append("{value} * d{idx}".format(idx=delay,
+                                                  value=_literal(coeff)))
 
     den_iterables = []
     for delay, coeff in iteritems(self.dendict):
@@ -222,7 +235,8 @@ class LinearFilter(LinearFilterProperties):
       elif coeff == 1:
         data_sum.append("-m{idx}".format(idx=delay))
       elif coeff != 0:
-        data_sum.append("-{value} * m{idx}".format(idx=delay, value=coeff))
+        data_sum.append("-{value} * m{idx}".format(idx=delay,
+                                                   value=_literal(coeff)))
 
     # Creates the generator function for this call
     if len(data_sum) == 0:
@@ -235,7 +249,7 @@ class LinearFilter(LinearFilterProperties):
       if gain == -1:
         expr = "-({expr})".format(expr=expr)
       elif gain != 1:
-        expr = "({expr}) / ({gain})".format(expr=expr, gain=gain)
+        expr = "({expr}) / ({gain})".format(expr=expr, gain=_literal(gain))
 
       arg_names = ["seq", "memory", "zero"]
       arg_names.extend("b{idx}".format(idx=idx) for idx in num_iterables)
